@@ -15,7 +15,7 @@ TOP_FIELDS={'_dsl.all_upblks':SetOf(Blk),'_dsl.all_upblk_hostobj':DictOf(Blk,Cmp
   '_dsl.all_update_once':SetOf(Blk),'_dsl.all_M_constraints':SetOf(PairOf(Any,Any)),'_dsl.all_adjacency':DictOf(Sig,SetOf(Sig),default='set')}
 M_FIELDS={'_dsl.upblks':SetOf(Blk),'_dsl.U_U_constraints':SetOf(PairOf(Blk,Blk)),'_dsl.update_ff':SetOf(Blk),
   '_dsl.RD_U_constraints':DictOf(Sig,Cons,default='set'),'_dsl.WR_U_constraints':DictOf(Sig,Cons,default='set'),
-  '_dsl.update_once':SetOf(Blk),'_dsl.M_constraints':SetOf(PairOf(Any,Any)),'_dsl.adjacency':DictOf(Sig,SetOf(Sig),default='set')}
+  '_dsl.update_once':SetOf(Blk),'_dsl.M_constraints':SetOf(PairOf(Any,Any)),'_dsl.adjacency':DictOf(Sig,SetOf(Sig),default='set'),'_dsl.upblk_reads':DictOf(Blk,Any),'_dsl.upblk_writes':DictOf(Blk,Any)}
 TopT=CompT('Component',TOP_FIELDS); MT=CompT('Component',M_FIELDS)
 
 SRC="C15: 'nothing belonging to the removed component remains reachable from the top' / metadata equals that of a design built without it: every all_* collection loses exactly the removed component's contribution"
@@ -99,6 +99,11 @@ def collect_regions():
            'in m._dsl.WR_U_constraints.items()':Loop(invariant=["forall(k, at(s._dsl.all_WR_U_constraints,k) == ((pre(at(s._dsl.all_WR_U_constraints,k)) | at(m._dsl.WR_U_constraints,k)) if k in seen else pre(at(s._dsl.all_WR_U_constraints,k))))"],
              modifies=['s._dsl.all_WR_U_constraints'])},
     property_ids=('C15',), sample=False, note="region inside `if isinstance(m, ComponentLevel2)`: the update_ff union and the two constraint loops of _collect_vars; dropped: the super() call before it and the read/write/call maps with the function-call closure after it"),
+   Contract(f'{L[2]}::ComponentLevel2._collect_vars@rwmaps', region=('s._dsl.all_upblk_reads.update(','for blk, calls in m._dsl.upblk_calls.items()'), view={'s':TopT,'m':MT},
+    cases=[Case('component', requires='True',
+      ensures="dom(s._dsl.all_upblk_reads) == old(dom(s._dsl.all_upblk_reads)) | dom(m._dsl.upblk_reads) and forall(k, implies(k in dom(m._dsl.upblk_reads), getv(s._dsl.all_upblk_reads,k) == getv(m._dsl.upblk_reads,k))) and forall(k, implies(k in dom(s._dsl.all_upblk_reads) and not (k in dom(m._dsl.upblk_reads)), getv(s._dsl.all_upblk_reads,k) == old(getv(s._dsl.all_upblk_reads,k)))) and dom(s._dsl.all_upblk_writes) == old(dom(s._dsl.all_upblk_writes)) | dom(m._dsl.upblk_writes) and forall(k, implies(k in dom(m._dsl.upblk_writes), getv(s._dsl.all_upblk_writes,k) == getv(m._dsl.upblk_writes,k))) and forall(k, implies(k in dom(s._dsl.all_upblk_writes) and not (k in dom(m._dsl.upblk_writes)), getv(s._dsl.all_upblk_writes,k) == old(getv(s._dsl.all_upblk_writes,k))))", source=S)],
+    modifies=['s._dsl.all_upblk_reads','s._dsl.all_upblk_writes'], returns=None,
+    property_ids=('C15',), sample=False, note="region inside `if isinstance(m, ComponentLevel2)`: the two dict.update statements that merge the component's read / write maps; the later |= of function reads/writes inside the call closure is outside the region"),
    Contract(f'{L[4]}::ComponentLevel4._collect_vars@own', region=('if isinstance(m, ComponentLevel4)',None), view={'s':TopT,'m':MT},
     cases=[Case('component', requires='True',
       ensures="s._dsl.all_update_once == old(s._dsl.all_update_once) | m._dsl.update_once and s._dsl.all_M_constraints == old(s._dsl.all_M_constraints) | m._dsl.M_constraints", source=S)],
